@@ -10,3 +10,15 @@ claim("C02",
       "constants/tolerances are right, nor slot arithmetic or execution correctness.",
       "go/types + go/ssa of x/tools v0.29.0; default build configuration (thorough adds CGO_ENABLED=0 and GOARCH=386); the frozen rule "
       "table in lint/internal/rules/c02.go; mutators considered are the frozen list in clause C02.4")
+
+claim("C18",
+      "must-lockset dataflow with caller-context (SSA), lock re-entry scan, guarded-action dominance, paired-effect and order rules",
+      "Decides the structural necessary conditions of the pool behaving like a set: every access to TxPool.{txs,cap,hashIndexMap} and "
+      "TxGuard.{blockBuckets,blockCache,txTracer} holds the owning mutex for writing on every path from every resolved caller (no "
+      "re-acquisition of a held mutex); GetTxs hands out only non-nil entries that passed the expiry test (box and each sub-tx) and "
+      "stops at the requested size; an index entry is deleted only after a successful lookup and together with the slot it names; "
+      "addTx indexes after the existence test; add/del/exist agree on box expansion; on a fork switch AddTxs(old fork) precedes "
+      "DelTxs(new fork); the miner packages only what passed the TxGuard.ExistTx filter. It does not decide linearizability of "
+      "interleaved operations nor capacity arithmetic.",
+      "lock identity is type based (all instances of a type share a key); callbacks passed as arguments are assumed to run "
+      "synchronously under the caller's locks; go/ssa + go/types of x/tools v0.29.0; rule table lint/internal/rules/c18.go")
